@@ -93,7 +93,7 @@ def mon_returned_point(ri):
     if not any((v == ri.optf) or (v != v and ri.optf != ri.optf) for v in vals):
         sig = {"alg": ri.name, "cause": "opt_f differs from the objective value at the returned x"}
         if abs(ri.optf) == float("inf"):
-            sig["detail"] = "opt_f infinite%s%s" % (", constrained" if ("ineq" in ri.sp or "eq" in ri.sp) else "", ", ROUNDOFF_LIMITED" if ri.ret == -4 else "")
+            sig["detail"] = "opt_f infinite, ROUNDOFF_LIMITED" if ri.ret == -4 else "opt_f infinite%s" % (", constrained" if ("ineq" in ri.sp or "eq" in ri.sp) else "")
         return (sig, "%s: opt_f=%r but f(returned x)=%r (ret=%d)" % (ri.name, ri.optf, vals[0], ri.ret))
     if ri.ret == 2 and "stopval" in ri.sp:
         sv = unhex(ri.sp["stopval"])
